@@ -33,6 +33,30 @@ def run(ctx, chk):
     chk.floor("E2", n("E2"), 3)
 
 
+def _iter_item(t):
+    """(`next` call, (field path below the Some payload)) if t is a component of an iteration item, through clones/derefs."""
+    path = []
+    for _ in range(12):
+        if t[0] in ("ref", "deref", "cast"):
+            t = t[1]
+        elif t[0] == "call" and t[1] in ("clone", "deref", "into", "from") and len(t[2]) == 1:
+            t = t[2][0]
+        elif t[0] == "field":
+            path.append(t[2])
+            t = t[1]
+        elif t[0] == "down":
+            t = t[1]
+        elif t[0] == "call" and t[1] == "next":
+            p = tuple(reversed(path))
+            # payload of Some is field "0" of the variant; strip it
+            if p and p[0] == "0":
+                p = p[1:]
+            return (t, p)
+        else:
+            return None
+    return None
+
+
 def run_on(fb, chk, tag=""):
     new = fb.one(name="new", self_adt="VringEpollHandler")
     he = [f for f in fb.find(name="handle_event", self_adt="VringEpollHandler") if not f.trait][0]
@@ -128,6 +152,21 @@ def run_on(fb, chk, tag=""):
         a = hmn.sym.arg_terms(bb)
         if show(a[1]).startswith("clone(") and "enumerate(iter(" in show(a[1]):
             atoms = hmn.atoms_at(bb)
-            ok = any(at[0] == "cmp" and at[1] == "Eq" and const_eval(fb, hmn.sym, at[3]) == 1 and "BitAnd 1" in show(at[2]) for at in atoms)
+            pushed_next = _iter_item(a[1])
+            for at in atoms:
+                if not (at[0] == "cmp" and at[1] == "Eq" and const_eval(fb, hmn.sym, at[3]) == 1 and at[2][0] == "bin" and at[2][1] == "BitAnd"
+                        and const_eval(fb, hmn.sym, at[2][3]) == 1):
+                    continue
+                sh = at[2][2]
+                if not (sh[0] == "call" and sh[1] == "shr" and len(sh[2]) == 2) and not (sh[0] == "bin" and sh[1] == "Shr"):
+                    continue
+                mask, amount = (sh[2][0], sh[2][1]) if sh[0] == "call" else (sh[2], sh[3])
+                # the mask is the thread's own element of queues_per_thread, unmodified (the same value the
+                # registration uses to compute ranks); the shift is the ring's index; the ring pushed is that ring
+                mi, ai = _iter_item(mask), _iter_item(amount)
+                mask_ok = mi is not None and mi[1] == ("1",) and "queues_per_thread" in show(mi[0]) \
+                    and not any(x[0] in ("bin", "un") for x in subterms(mask))
+                idx_ok = ai is not None and ai[1] == ("0",) and pushed_next is not None and ai[0] == pushed_next[0] and pushed_next[1] == ("1",)
+                ok = mask_ok and idx_ok
     chk.check(ok, "E3", tag + "slice", "a ring joins a thread's slice iff its bit is set in the thread's mask (in queue order)",
               "per-thread ring slices are not selected by the mask bit", hn.loc())
